@@ -159,19 +159,152 @@ def gen_observer_effects():
     return sorted(set(eff))
 
 
+STREAM_SEEDS = ("file_like", "file")
+
+
 def gen_input_methods():
+    """methods called on the caller's stream and callees it is handed to.  The stream is followed through the
+    package: parameters named file_like/file, local names and `self.<attr>` assigned from it, and the parameters
+    of package functions / constructors / methods it is passed to (fixpoint, callee matched by simple name).
+    Methods are reported as `file_like.<method>` whatever the alias is called."""
+    trees = {rel: parse(rel) for rel in py_files()}
+    funcs = {}          # key -> [(FunctionDef, owning ClassDef | None)];  key = top-level function / class name,
+    owner = {}          #        or (class name, method name)
+    classes = {}
+    for rel, tree in trees.items():
+        for cls in [n for n in ast.walk(tree) if isinstance(n, ast.ClassDef)]:
+            classes.setdefault(cls.name, []).append(cls)
+            for fn in cls.body:
+                if isinstance(fn, (ast.FunctionDef, ast.AsyncFunctionDef)):
+                    owner[fn] = cls
+        for fn in ast.walk(tree):
+            if isinstance(fn, (ast.FunctionDef, ast.AsyncFunctionDef)):
+                cls = owner.get(fn)
+                if cls is None:
+                    funcs.setdefault(fn.name, []).append((fn, None))
+                else:
+                    funcs.setdefault((cls.name, fn.name), []).append((fn, cls))
+                    if fn.name == "__init__":
+                        funcs.setdefault(cls.name, []).append((fn, cls))
+
+    def mro_names(cls, seen=None):
+        seen = seen if seen is not None else set()
+        if cls.name in seen:
+            return seen
+        seen.add(cls.name)
+        for b in cls.bases:
+            bn = b.id if isinstance(b, ast.Name) else (b.attr if isinstance(b, ast.Attribute) else None)
+            for c in classes.get(bn, []):
+                mro_names(c, seen)
+        return seen
+
+    def callees(call, fn):
+        """package definitions a call may reach (constructor -> __init__, self.m -> methods of the class and its
+        package bases / subclasses, super().m -> bases, mod.f / f -> top-level f)"""
+        f = call.func
+        if isinstance(f, ast.Name):
+            return funcs.get(f.id, [])
+        if isinstance(f, ast.Attribute):
+            recv = f.value
+            cls = owner.get(fn)
+            if isinstance(recv, ast.Name) and recv.id in ("self", "cls") and cls is not None:
+                fam = mro_names(cls) | {c for c, lst in classes.items() for k in lst if cls.name in mro_names(k)}
+                return [x for c in fam for x in funcs.get((c, f.attr), [])]
+            if isinstance(recv, ast.Call) and isinstance(recv.func, ast.Name) and recv.func.id == "super" and cls is not None:
+                return [x for c in mro_names(cls) - {cls.name} for x in funcs.get((c, f.attr), [])]
+            if isinstance(recv, ast.Name) and recv.id in classes:
+                return funcs.get((recv.id, f.attr), [])
+            if isinstance(recv, ast.Name):          # module alias . function / class
+                return funcs.get(f.attr, [])
+        return []
+
+    names = {}          # FunctionDef -> set of local names bound to the stream
+    attrs = {}          # ClassDef -> set of attribute names of self bound to the stream
+    for lst in funcs.values():
+        for fn, cls in lst:
+            ps = [a.arg for a in fn.args.posonlyargs + fn.args.args + fn.args.kwonlyargs]
+            names.setdefault(fn, set()).update(p for p in ps if p in STREAM_SEEDS)
+
+    def is_stream(e, fn):
+        if isinstance(e, ast.Name):
+            return e.id in names.get(fn, ()) or e.id in STREAM_SEEDS
+        if isinstance(e, ast.Attribute) and isinstance(e.value, ast.Name) and e.value.id == "self":
+            return e.attr in attrs.get(owner.get(fn), ())
+        if isinstance(e, (ast.IfExp,)):
+            return is_stream(e.body, fn) or is_stream(e.orelse, fn)
+        if isinstance(e, ast.BoolOp):
+            return any(is_stream(v, fn) for v in e.values)
+        if isinstance(e, ast.NamedExpr):
+            return is_stream(e.value, fn)
+        return False
+
+    def outer_functions():
+        for lst in funcs.values():
+            for fn, cls in lst:
+                yield fn
+
+    changed = True
+    rounds = 0
+    while changed and rounds < 20:
+        changed = False
+        rounds += 1
+        for fn in set(outer_functions()):
+            for n in ast.walk(fn):
+                if isinstance(n, (ast.Assign, ast.AnnAssign, ast.NamedExpr)) and getattr(n, "value", None) is not None and is_stream(n.value, fn):
+                    tgts = n.targets if isinstance(n, ast.Assign) else [n.target]
+                    for t in tgts:
+                        if isinstance(t, ast.Name) and t.id not in names[fn]:
+                            names[fn].add(t.id)
+                            changed = True
+                        elif isinstance(t, ast.Attribute) and isinstance(t.value, ast.Name) and t.value.id == "self" and owner.get(fn) is not None:
+                            if t.attr not in attrs.setdefault(owner[fn], set()):
+                                attrs[owner[fn]].add(t.attr)
+                                changed = True
+                elif isinstance(n, (ast.With, ast.AsyncWith)):
+                    for it in n.items:
+                        if is_stream(it.context_expr, fn) and isinstance(it.optional_vars, ast.Name) and it.optional_vars.id not in names[fn]:
+                            names[fn].add(it.optional_vars.id)
+                            changed = True
+                elif isinstance(n, ast.Call):
+                    for g, gcls in callees(n, fn):
+                        ps = [a.arg for a in g.args.posonlyargs + g.args.args]
+                        bound = gcls is not None and ps[:1] in (["self"], ["cls"])
+                        off = 1 if bound else 0
+                        for i, a in enumerate(n.args):
+                            if is_stream(a, fn) and i + off < len(ps) and ps[i + off] not in names[g]:
+                                names[g].add(ps[i + off])
+                                changed = True
+                        allp = set(ps) | {a.arg for a in g.args.kwonlyargs}
+                        for k in n.keywords:
+                            if k.arg and k.arg in allp and is_stream(k.value, fn) and k.arg not in names[g]:
+                                names[g].add(k.arg)
+                                changed = True
     meths = set()
     passed = set()
-    for rel in py_files():
-        tree = parse(rel)
+    encl = {}
+    for rel, tree in trees.items():
+        # innermost enclosing function of every node
+        def mark(node, cur):
+            for ch in ast.iter_child_nodes(node):
+                c2 = ch if isinstance(ch, (ast.FunctionDef, ast.AsyncFunctionDef)) else cur
+                encl[ch] = c2
+                mark(ch, c2)
+        mark(tree, None)
         for n in ast.walk(tree):
-            if isinstance(n, ast.Call):
-                if isinstance(n.func, ast.Attribute) and isinstance(n.func.value, ast.Name) and n.func.value.id in ("file_like", "file"):
-                    meths.add((rel, n.func.value.id + "." + n.func.attr))
-                for a in list(n.args) + [k.value for k in n.keywords]:
-                    if isinstance(a, ast.Name) and a.id == "file_like":
-                        callee = ast.unparse(n.func)[:50]
-                        passed.add((rel, callee))
+            if not isinstance(n, ast.Call):
+                continue
+            fn = encl.get(n)
+            if isinstance(n.func, ast.Attribute) and is_stream(n.func.value, fn):
+                meths.add((rel, "file_like." + n.func.attr))
+            for a in list(n.args) + [k.value for k in n.keywords]:
+                if is_stream(a, fn):
+                    passed.add((rel, ast.unparse(n.func)[:50]))
+        for n in ast.walk(tree):        # writes through the alias that are not calls
+            if isinstance(n, (ast.Assign, ast.AugAssign, ast.Delete)):
+                tg = n.targets if not isinstance(n, ast.AugAssign) else [n.target]
+                for t in tg:
+                    if isinstance(t, (ast.Attribute, ast.Subscript)) and is_stream(t.value, encl.get(n)):
+                        meths.add((rel, "file_like.<store " + (t.attr if isinstance(t, ast.Attribute) else "[]") + ">"))
     return sorted(meths), sorted(passed)
 
 
